@@ -544,6 +544,26 @@ pub fn o_free_space(prop: &str, ops: &[Op], ex: &Exec) -> V {
         }
         _ => false,
     };
+    // not rewritten although the allocation changed: a count that was right when the history started and is wrong
+    // now is the library's doing (a count that was already wrong or unknown in the initial image is not)
+    if let (false, Some((_, _, _, free, _)), Some(Ok(fin))) = (fsinfo_written, ex.suffix.fsinfo, &ex.suffix.final_decoded) {
+        if fin.geo.width == 32 && free != 0xFFFF_FFFF && free as u64 != fin.free {
+            let st = ex.st.borrow();
+            let base = crate::dev::DevState::new(st.base.clone());
+            let g = &fin.geo;
+            let cands: Vec<u32> = fin.owner.keys().copied().chain((2..=g.max_cluster()).filter(|_| g.clusters <= 70_000)).collect();
+            let opts = crate::decoder::DecodeOpts { candidates: if g.clusters <= 70_000 { None } else { Some(&cands) }, read_content: false, ..Default::default() };
+            if let (Ok(b), Some((_, _, _, bfree, _))) = (crate::decoder::decode(&base, &opts), crate::decoder::fsinfo(&base, g)) {
+                if bfree as u64 == b.free {
+                    push(
+                        &mut v,
+                        format!("{prop}/fsinfo/stale-free-count"),
+                        format!("fs-info still holds {free} after unmount (it was correct, {bfree}, in the initial image) but the FAT now has {} free entries", fin.free),
+                    );
+                }
+            }
+        }
+    }
     if let (true, Some((lead, strc, trail, free, next)), Some(Ok(fin))) = (fsinfo_written, ex.suffix.fsinfo, &ex.suffix.final_decoded) {
         if !(lead && strc && trail) {
             push(&mut v, format!("{prop}/fsinfo/signatures"), format!("{lead} {strc} {trail}"));
